@@ -23,6 +23,17 @@ METHODS = {
     "to_ascii_lowercase": lambda x: x + 32 if 65 <= x <= 90 else x,
     "to_ascii_uppercase": lambda x: x - 32 if 97 <= x <= 122 else x,
 }
+# char predicates (Unicode semantics; Python's str predicates agree with Rust's on the Latin and Greek blocks that the domain covers)
+METHODS.update({
+    "is_alphanumeric": lambda x: chr(x).isalnum(),
+    "is_alphabetic": lambda x: chr(x).isalpha(),
+    "is_numeric": lambda x: chr(x).isnumeric(),
+    "is_whitespace": lambda x: chr(x).isspace(),
+    "is_ascii_whitespace": lambda x: x in (9, 10, 12, 13, 32),
+    "is_ascii_punctuation": lambda x: x < 128 and chr(x).isprintable() and not chr(x).isalnum() and x != 32,
+    "is_ascii_graphic": lambda x: 33 <= x <= 126,
+    "is_ascii_control": lambda x: x < 32 or x == 127,
+})
 METHODS2 = {
     "wrapping_sub": lambda x, y: (x - y) % 256,
     "wrapping_add": lambda x, y: (x + y) % 256,
@@ -192,14 +203,15 @@ def _ev(n, env):
     raise CannotAnalyse("bytefn: expression kind %r" % k)
 
 
-def table(body):
-    """{byte: result} for byte in 0..=255; result is an int, a bool, 'None', ('Some', int) or 'overflow'."""
+def table(body, domain=range(256)):
+    """{byte: result} for byte in the domain (0..=255 by default; a `char` classifier can be folded over more code points);
+    result is an int, a bool, 'None', ('Some', int) or 'overflow'."""
     params = body.get("params") or []
     if len(params) != 1:
         raise CannotAnalyse("bytefn: %s does not take exactly one parameter" % body["path"])
     p = params[0]
     out = {}
-    for x in range(256):
+    for x in domain:
         env = {}
         pat = p.get("pat", p)
         name = pat.get("name") or p.get("name")
